@@ -80,7 +80,8 @@ type Ctx struct {
 	From       string   `json:"from,omitempty"`
 	To         string   `json:"to,omitempty"`
 	Via        bool     `json:"via,omitempty"` // kubernetes contexts: build through ConvertKubeEventToBindingContext
-	Op         string   `json:"op,omitempty"`  // flow cases only: "apply" | "delete" of Objects[0] on the cluster (see flow.go)
+	Op         string   `json:"op,omitempty"`  // flow cases: "apply" | "delete" of Objects[0] on the cluster (see flow.go); hook cases: "sync" | "apply" | "delete" | "fire" (see hook.go)
+	K          int      `json:"k,omitempty"`   // hook cases only: index of the kubernetes binding (sync, apply, delete) / of the other binding (fire)
 }
 
 type Input struct {
@@ -88,6 +89,7 @@ type Input struct {
 	Config  string `json:"config,omitempty"` // when set: a hook config; version, binding name, jqFilter and keepFullObjectsInMemory of the kubernetes contexts come from the REAL loaded config (first kubernetes binding)
 	Ctxs    []Ctx  `json:"ctxs"`
 	Flow    *Flow  `json:"flow,omitempty"` // when set: the contexts come out of the real informer path; Ctxs are cluster operations (flow.go)
+	Hook    *Hook  `json:"hook,omitempty"` // when set: a hook with several bindings; Ctxs are the events whose contexts form ONE combined array (hook.go)
 }
 
 // ---- observation ----
@@ -99,6 +101,8 @@ type Obs struct {
 	Reviews []string   `json:"reviews,omitempty"` // json.Marshal of the review payload of each context ("" = nil)
 	Eff     *Input     `json:"eff,omitempty"`     // effective input when Config was used
 	Files   []FlowFile `json:"files,omitempty"`   // flow cases: the rendered files in the order they were produced
+	// hook cases: one record per item of the rendered array (Out)
+	HookItems []HookItem `json:"hook_items,omitempty"`
 }
 
 func deepCopy(v any) any {
@@ -263,6 +267,9 @@ func Run(in Input) (obs Obs) {
 	if in.Flow != nil {
 		return runFlow(in)
 	}
+	if in.Hook != nil {
+		return runHook(in)
+	}
 	if in.Config != "" {
 		hc := &config.HookConfig{}
 		if err := hc.LoadAndValidate([]byte(in.Config)); err != nil {
@@ -401,6 +408,9 @@ func coqVersion(v string) string {
 func Render(in Input, obs *Obs, crash string) core.Case {
 	if in.Flow != nil {
 		return renderFlow(in, obs, crash)
+	}
+	if in.Hook != nil {
+		return renderHook(in, obs, crash)
 	}
 	c := core.Case{}
 	out := "None"
@@ -563,6 +573,11 @@ func fillOracle(ins []core.In[Input]) error {
 	for k := range ins {
 		if ins[k].Input.Flow != nil {
 			visit(ins[k].Input.Flow.Initial)
+		}
+		if ins[k].Input.Hook != nil {
+			for b := range ins[k].Input.Hook.Kube {
+				visit(ins[k].Input.Hook.Kube[b].Initial)
+			}
 		}
 		for c := range ins[k].Input.Ctxs {
 			cx := &ins[k].Input.Ctxs[c]
@@ -852,6 +867,13 @@ func hasTrigger(in Input) bool {
 	if in.Flow != nil && chk(in.Flow.Initial) {
 		return true
 	}
+	if in.Hook != nil {
+		for _, k := range in.Hook.Kube {
+			if chk(k.Initial) {
+				return true
+			}
+		}
+	}
 	for _, c := range in.Ctxs {
 		if chk(c.Objects) {
 			return true
@@ -916,7 +938,7 @@ func Corpus() []core.In[Input] {
 		// F8 (recorded finding of C08): a scalar jq result is stored as {}
 		mk("trigger", Input{Version: "v1", Ctxs: []Ctx{event(".spec.replicas", true, pod("p", lbl, 3))}}),
 	}
-	return append(cases, flowCorpus()...)
+	return append(append(cases, flowCorpus()...), hookCorpus()...)
 }
 
 func Gen(r *core.Rng, tier string) ([]core.In[Input], bool) {
@@ -959,8 +981,24 @@ func Gen(r *core.Rng, tier string) ([]core.In[Input], bool) {
 		}
 		ins = append(ins, core.In[Input]{Input: g.flow(triggerPct), Stream: "flow"})
 	}
+	// hook cases: one combined array of a hook whose bindings of different types share names (see hook.go)
+	nhook := 100
+	switch tier {
+	case "thorough":
+		nhook = 2500
+	case "search":
+		nhook = 800
+	}
+	for i := 0; i < nhook; i++ {
+		triggerPct := 0
+		if i%10 == 9 {
+			triggerPct = 60
+		}
+		ins = append(ins, core.In[Input]{Input: g.hook(triggerPct), Stream: "hook"})
+	}
 	if tier == "thorough" || tier == "search" {
 		ins = append(ins, flowExhaustive()...)
+		ins = append(ins, hookExhaustive()...)
 	}
 	if tier == "thorough" || tier == "search" {
 		// every documented kind x jqFilter {unset, object-valued, scalar} x keepFullObjectsInMemory x
@@ -996,7 +1034,7 @@ func Gen(r *core.Rng, tier string) ([]core.In[Input], bool) {
 		panic("jq oracle: " + err.Error())
 	}
 	for i := range ins {
-		if (ins[i].Stream == "random" || ins[i].Stream == "flow") && hasTrigger(ins[i].Input) {
+		if (ins[i].Stream == "random" || ins[i].Stream == "flow" || ins[i].Stream == "hook") && hasTrigger(ins[i].Input) {
 			ins[i].Stream = "trigger"
 		}
 	}
@@ -1005,6 +1043,6 @@ func Gen(r *core.Rng, tier string) ([]core.In[Input], bool) {
 
 var Driver = core.Driver[Input, Obs]{
 	Spec: core.Spec{Property: "C09", Imports: []string{"Json", "C09_Model", "C09_Spec", "C09_Corr"}, Corr: "C09_Corr", Triggers: []string{"F8"}, ShrinkKey: "ctxs",
-		Rule: "lists of 1-4 binding contexts rendered by ConvertBindingContextList(version,ctxs).Json(); objects go through the real applyFilter(+RemoveFullObject), kubernetes contexts through ConvertKubeEventToBindingContext; expected jq values from /usr/bin/jq; streams: corpus (F3/F15 witnesses, doc examples, legacy string filter results), random (documented kinds x options), trigger (jq results that are not one object, F8), malformed (undocumented struct states: model agreement only), exhaustive (thorough: kind x jqFilter x keepFull x snapshots x version); non-trivial = some context carries objects, snapshots or a review; distinct = distinct input JSON"},
+		Rule: "lists of 1-4 binding contexts rendered by ConvertBindingContextList(version,ctxs).Json(); objects go through the real applyFilter(+RemoveFullObject), kubernetes contexts through ConvertKubeEventToBindingContext; expected jq values from /usr/bin/jq; streams: corpus (F3/F15 witnesses, doc examples, legacy string filter results), random (documented kinds x options), trigger (jq results that are not one object, F8), malformed (undocumented struct states: model agreement only), exhaustive (thorough: kind x jqFilter x keepFull x snapshots x version), flow (one kubernetes binding on a fake cluster: the files of the real informer path), hook (a hook with kubernetes and schedule/validating/mutating/conversion bindings that share names across the binding types and include different snapshots: ONE combined array rendered as Hook.Run does, namesakes in both orders); non-trivial = some context carries objects, snapshots or a review; distinct = distinct input JSON"},
 	Gen: Gen, Run: Run, Render: Render, PerShard: 40, Workers: 8, CaseTimout: 20 * time.Second,
 }
